@@ -639,6 +639,8 @@ func poolCount(p *config.Pool) (int64, int64, int64) {
 	var ipv4 int64
 	var ipv6 int64
 	for _, cidr := range p.CIDR {
+		// ipaddr.NewPrefix rewrites the IPNet it is given to its 16 bytes form: work on a copy, the CIDR belongs to the configuration.
+		cidr := &net.IPNet{IP: cidr.IP, Mask: cidr.Mask}
 		o, b := cidr.Mask.Size()
 		if b-o >= 62 {
 			// An enormous ipv6 range is allocated which will never run out.
@@ -725,6 +727,8 @@ func (a *Allocator) getIPFromCIDR(cidr *net.IPNet, avoidBuggyIPs bool, svc strin
 		sharing: sharingKey,
 		backend: backendKey,
 	}
+	// ipaddr.NewPrefix rewrites the IPNet it is given to its 16 bytes form: work on a copy, the CIDR belongs to the configuration.
+	cidr = &net.IPNet{IP: cidr.IP, Mask: cidr.Mask}
 	c := ipaddr.NewCursor([]ipaddr.Prefix{*ipaddr.NewPrefix(cidr)})
 	for pos := c.First(); pos != nil; pos = c.Next() {
 		if avoidBuggyIPs && ipConfusesBuggyFirmwares(pos.IP) {
